@@ -32,8 +32,8 @@ CLAUSES = {
 
 # (class, max length, gap sets) per property and tier
 PLANS = {
-    'C03': {'quick': [('control', 3, [G_NEAR]), ('far', 4, [G_CJ, G_J]), ('far', 3, [G_CB, G_B, G_BEYOND, G_HILO]), ('abs', 4, [[]]), ('datamix', 3, [[3]])],
-            'thorough': [('control', 4, [G_NEAR, G_CB]), ('far', 4, [G_CB, G_CJ, G_B, G_J, G_BEYOND, G_HILO]), ('far', 5, [G_CJ]), ('abs', 5, [[]]), ('oddalign', 4, [[]])]},
+    'C03': {'quick': [('handc', 3, [G_NEAR]), ('control', 3, [G_NEAR]), ('far', 4, [G_CJ, G_J]), ('far', 3, [G_CB, G_B, G_BEYOND, G_HILO]), ('abs', 4, [[]]), ('datamix', 3, [[3]])],
+            'thorough': [('handc', 4, [G_NEAR, G_CB]), ('control', 4, [G_NEAR, G_CB]), ('far', 4, [G_CB, G_CJ, G_B, G_J, G_BEYOND, G_HILO]), ('far', 5, [G_CJ]), ('abs', 5, [[]]), ('oddalign', 4, [[]])]},
     'C04': {'quick': [('control', 4, [G_NEAR]), ('literals', 2, [[]]), ('far', 3, [G_CB, G_CJ, G_J]), ('abs', 3, [[]])],
             'thorough': [('control', 4, [G_NEAR, G_CB, G_CJ]), ('literals', 3, [[]]), ('far', 4, [G_CB, G_CJ, G_B, G_J])]},
     'C08': {'quick': [('values', 3, [G_NEAR, G_CJ]), ('values', 2, [G_J]), ('values', 4, [[]]), ('datamix', 3, [[3]])],
@@ -127,6 +127,8 @@ def run_plan(run, scratch, prop):
     stats = []
     alphas = {}
     for cls, maxlen, gapsets in PLANS[prop][run.tier]:
+        if os.environ.get('VERIF_ONLY_CLASS') and cls != os.environ['VERIF_ONLY_CLASS']:    # (debugging aid: one program class)
+            continue
         for gaps in gapsets:
             alpha, idx, r = layout.enumerate_programs(scratch, cls, maxlen, gaps)
             run.add_tlc('AsmProgs %s N=%d gaps=%s' % (cls, maxlen, gaps), r)
